@@ -112,6 +112,17 @@ def to_right_grad_scale(
     return right_grad_scale
 
 
+_CONSTRAINT_NAMES = (
+    "gmean",
+    "hmean",
+    "amean",
+    "to_output_scale",
+    "to_grad_input_scale",
+    "to_left_grad_scale",
+    "to_right_grad_scale",
+)
+
+
 def apply_constraint(
     constraint_name: Optional[str], *scales: float
 ) -> Tuple[float, ...]:
@@ -130,7 +141,11 @@ def apply_constraint(
     """
     if constraint_name is None or constraint_name == "":
         return scales
-    constraint = getattr(sys.modules[__name__], constraint_name, None)
+    constraint = (
+        getattr(sys.modules[__name__], constraint_name, None)
+        if constraint_name in _CONSTRAINT_NAMES
+        else None
+    )
     if constraint is None:
         raise ValueError(
             f"Constraint: {constraint_name} is not a valid constraint (see"
